@@ -272,7 +272,7 @@ class Func(object):
                             y = y['ch'][0]
                             while y['k'].endswith('CastExpr') or y['k'] == 'ParenExpr':
                                 y = y['ch'][0]
-                            pure = y['k'] in ('MemberExpr', 'CXXThisExpr')
+                            pure = y['k'] in ('MemberExpr', 'CXXThisExpr', 'DeclRefExpr')       # … or a member of another local object / reference (`const Mutex & m = tsd._queueLock;`)
                         if pure:
                             al[n['d']] = x['i']
                             x['alias_binding'] = 1
